@@ -9,6 +9,15 @@ MODULE = "GoNfsd.Props.C07"
 def run(ctx):
     ok_go, ok_drv = seqlib.build_and_prove(ctx, MODULE, extra_parts=["skeleton"])
     seqlib.report_flush_callers(ctx)
+    if any(b.kind == "proof" for b in ctx.breaks):
+        import C03
+        for name, calls in C03.failing_commit_paths(ctx)[:3]:
+            ctx.add_violation("acknowledged-before-durable:" + name,
+                              "%s commits without waiting for the disk (%s): a request other than WRITE is acknowledged while its transaction — and every unstable write "
+                              "acknowledged before it — is only in the journal's memory; a crash right after the reply loses what the reply promised" % (name, calls),
+                              {"input": {"function": name, "calls_in_source_order": calls},
+                               "how": "regenerated tables Gen/Skeleton.unstableCommitters / commitPaths (theorem only_write_commits_without_waiting); history: UNSTABLE WRITE, the "
+                                      "request in question, crash before any other stable operation"})
     if ok_go:
         data = ["-workloads", "24", "-ops", "80", "-images", "1200"] if ctx.tier == "thorough" else ["-workloads", "6", "-ops", "50", "-images", "200"]
         crashlib.run_crash(ctx, ok_drv, "data", data, lambda label, key: True)
